@@ -96,6 +96,14 @@ func verifTCPAddrString(a *net.TCPAddr) string {
 
 func VerifC18_ClientAddr() {
 	s := verifapi.String("client_ip", 4)
+	if verifapi.Native() && s != "" {
+		// realiser: the text that makes the real net.ParseIP return what the stub returned
+		if ip := verifParseIP(s); ip == nil {
+			s = "not-an-ip"
+		} else {
+			s = ip.String()
+		}
+	}
 	a := clientAddr(s)
 	ca, isCMA := a.(ClientMapAddr)
 	verifapi.Assert(isCMA, "the address is a ClientMapAddr")
@@ -119,10 +127,14 @@ func VerifC18_ClientAddr() {
 	if s == "" || verifParsed == nil || unspec {
 		verifapi.Cover("clientAddr: empty")
 		verifapi.Assert(string(ca) == "", "absent, unparseable or unspecified client_ip gives the empty address")
-		verifapi.Assert(verifTCPStringCalls == 0, "nothing is rendered for a rejected client_ip")
+		verifapi.Assert(verifapi.Native() || verifTCPStringCalls == 0, "nothing is rendered for a rejected client_ip")
 	} else {
 		verifapi.Cover("clientAddr: rendered")
-		verifapi.Assert(verifTCPStringCalls == 1, "a valid client_ip is rendered once")
-		verifapi.Assert(string(ca) == verifTCPString, "the result is the rendered address")
+		if verifapi.Native() {
+			verifapi.Assert(string(ca) == (&net.TCPAddr{IP: verifParsed, Port: 1}).String(), "the result is the rendered address")
+		} else {
+			verifapi.Assert(verifTCPStringCalls == 1, "a valid client_ip is rendered once")
+			verifapi.Assert(string(ca) == verifTCPString, "the result is the rendered address")
+		}
 	}
 }
